@@ -18,6 +18,8 @@ func filters(m dsl.Matcher) {
 	m.Match("for $*_ { $*body }").Where(m["body"].Contains("probe($y)")).Report("loop with probe")
 	m.Match("if $c { $*_ }").Where(m["c"].Type.Is("bool") && m["c"].Pure).Report("if $c")
 	m.Match("func() { $*_ }()").Report("iife")
+	m.Match("probeT($x)").Where(m["x"].Type.Is("map[$t]$t")).Report("same-kv $x")
+	m.Match("probeT($x, $y)").Where(m["x"].Type.Is("[]$t") && m["y"].Type.Is("$t")).Report("elem $x $y")
 	m.MatchComment("//\\s*(?P<w>\\w+)").Report("comment $w")
 }
 
@@ -25,8 +27,17 @@ func isSmall(ctx *dsl.VarFilterContext) bool {
 	return len(ctx.GetType("string").String()) == 6
 }
 
+// documented to panic: GetType on a name that cannot be resolved (only for values of type p.Boom)
+func boom(ctx *dsl.VarFilterContext) bool {
+	if ctx.Type.String() == "p.Boom" {
+		return ctx.SizeOf(ctx.GetType("nosuch/pkg.Type")) == 1
+	}
+	return false
+}
+
 func custom(m dsl.Matcher) {
 	m.Match("probe($x)").Where(m["x"].Filter(isSmall) && m["x"].Text == "1").Report("custom $x")
+	m.Match("boomer($x)").Where(m["x"].Filter(boom)).Report("never")
 }
 `
 
@@ -57,7 +68,9 @@ func runC09(c *Ctx) error {
 	var pool []*hx.Target
 	var cases []*walkCase
 	for i := 0; i < 12; i++ {
-		src := genIfFile(rng, 2+rng.Intn(4)) + "\n// trailing " + fmt.Sprint(i) + "\n"
+		typed := []string{"probeT(map[int]int{})", "probeT(map[string]int{})", "probeT(map[string]string{})", "probeT([]int{}, 1)", "probeT([]string{}, 1)", "probeT([]string{}, \"s\")", "probeT(map[int]string{})"}
+		rng.Shuffle(len(typed), func(a, b int) { typed[a], typed[b] = typed[b], typed[a] })
+		src := genIfFile(rng, 2+rng.Intn(4)) + "\nfunc probeT(...interface{}) {}\n\nfunc typedProbes() {\n\t" + strings.Join(typed[:4+rng.Intn(4)], "\n\t") + "\n}\n\n// trailing " + fmt.Sprint(i) + "\n"
 		t, err := hx.ParseTarget(fmt.Sprintf("pool%d.go", i), src)
 		if err != nil {
 			return fmt.Errorf("pool file: %v", err)
@@ -68,9 +81,20 @@ func runC09(c *Ctx) error {
 		wc.impl, _ = implTrace(t, tree)
 		cases = append(cases, wc)
 	}
+	// files whose analysis panics inside a custom filter (bytecode frames left on the shared stack);
+	// used as history steps only, never as the probe
+	nGood := len(pool)
+	for i := 0; i < 2; i++ {
+		src := genIfFile(rng, 2) + "\ntype Boom struct{}\n\nfunc boomer(interface{}) {}\n\nfunc useBoom() {\n\tprobe(1)\n\tboomer(Boom{})\n\tprobe(2)\n}\n"
+		t, err := hx.ParseTarget(fmt.Sprintf("boom%d.go", i), src)
+		if err != nil {
+			return fmt.Errorf("boom file: %v", err)
+		}
+		pool = append(pool, t)
+	}
 	// baselines with fresh state
-	base := make([]string, len(pool))
-	for i, t := range pool {
+	base := make([]string, nGood)
+	for i, t := range pool[:nGood] {
 		rs, pk, frame, err := hx.Run(e, t, hx.RunOpts{State: ruleguard.NewRunnerState(e)})
 		if err != nil {
 			return err
@@ -112,12 +136,19 @@ func runC09(c *Ctx) error {
 				lastKind = "after-completed-run"
 				res.Dist("step:completed")
 			}
-			_, _, _, err := hx.Run(e, pool[fi], opts)
+			_, spk, _, err := hx.Run(e, pool[fi], opts)
 			if err != nil {
 				return err
 			}
+			if fi >= nGood {
+				lastKind = "after-run-aborted-in-custom-filter"
+				res.Dist("step:filter-panic")
+				if spk == "" {
+					res.Errorf("c09: the boom file did not abort the run (the documented GetType panic did not fire)")
+				}
+			}
 		}
-		probe := rng.Intn(len(pool))
+		probe := rng.Intn(nGood)
 		got, pk, _, _ := hx.Run(e, pool[probe], hx.RunOpts{State: st})
 		check(lastKind, hist, probe, got, pk)
 		got2, pk2, _, _ := hx.Run(e, pool[probe], hx.RunOpts{State: st})
